@@ -48,32 +48,28 @@ Section Generic.
     destruct (i - 1 >? len l) eqn:E2; [reflexivity|]. rewrite Z.gtb_ltb in E2. apply Z.ltb_ge in E2. lia.
   Qed.
 
-  Lemma CLAMP_id i n : 0 <= i < n -> CLAMP i n = i.
-  Proof.
-    intros H. unfold CLAMP.
-    replace (i <? 0) with false by (symmetry; apply Z.ltb_ge; lia).
-    replace (i >=? n) with false by (symmetry; rewrite Z.geb_leb; apply Z.leb_gt; lia). reflexivity.
-  Qed.
-
-  (* what holds: inside the documented domain the range is removed *)
-  Lemma loesche_bereich_partial (l : list A) s e : 1 <= s -> s <= e -> e <= len l ->
+  (* the documented behaviour: the inclusive range is removed; every invalid index raises *)
+  Lemma loesche_bereich_spec (l : list A) s e : 1 <= s -> s <= e -> e <= len l ->
     Loesche_Bereich l s e = Ok (firstn (Z.to_nat (s - 1)) l ++ skipn (Z.to_nat e) l).
   Proof.
     intros H1 H2 H3. unfold Loesche_Bereich, efficient_list_delete_range.
-    replace (len l <=? 0) with false by (symmetry; apply Z.leb_gt; lia).
     replace (s - 1 >? e - 1) with false by (symmetry; rewrite Z.gtb_ltb; apply Z.ltb_ge; lia).
-    rewrite !CLAMP_id by lia. replace (e - 1 + 1) with e by lia. reflexivity.
+    replace (s - 1 <? 0) with false by (symmetry; apply Z.ltb_ge; lia).
+    replace (e - 1 >=? len l) with false by (symmetry; rewrite Z.geb_leb; apply Z.leb_gt; lia).
+    cbn [orb]. replace (e - 1 + 1) with e by lia. reflexivity.
   Qed.
-  Lemma loesche_element_partial (l : list A) i : 1 <= i <= len l ->
-    Loesche_Element l i = Ok (firstn (Z.to_nat (i - 1)) l ++ skipn (Z.to_nat i) l).
-  Proof. intros H. apply (loesche_bereich_partial l i i); lia. Qed.
-  (* crossed bounds on a non-empty list are the only error *)
-  Lemma loesche_bereich_crossed (l : list A) s e : 0 < len l -> e < s -> Loesche_Bereich l s e = Err.
+  Lemma loesche_bereich_err (l : list A) s e : ~ (1 <= s /\ s <= e /\ e <= len l) -> Loesche_Bereich l s e = Err.
   Proof.
-    intros H1 H2. unfold Loesche_Bereich, efficient_list_delete_range.
-    replace (len l <=? 0) with false by (symmetry; apply Z.leb_gt; lia).
-    replace (s - 1 >? e - 1) with true by (symmetry; rewrite Z.gtb_ltb; apply Z.ltb_lt; lia). reflexivity.
+    intros H. unfold Loesche_Bereich, efficient_list_delete_range.
+    destruct (s - 1 >? e - 1) eqn:E1; [reflexivity|]. rewrite Z.gtb_ltb in E1. apply Z.ltb_ge in E1.
+    destruct (s - 1 <? 0) eqn:E2; [reflexivity|]. apply Z.ltb_ge in E2.
+    destruct (e - 1 >=? len l) eqn:E3; [reflexivity|]. rewrite Z.geb_leb in E3. apply Z.leb_gt in E3. lia.
   Qed.
+  Lemma loesche_element_spec (l : list A) i : 1 <= i <= len l ->
+    Loesche_Element l i = Ok (firstn (Z.to_nat (i - 1)) l ++ skipn (Z.to_nat i) l).
+  Proof. intros H. apply (loesche_bereich_spec l i i); lia. Qed.
+  Lemma loesche_element_err (l : list A) i : i < 1 \/ len l < i -> Loesche_Element l i = Err.
+  Proof. intros H. apply (loesche_bereich_err l i i). lia. Qed.
 
   (* ---- Füllen ---- *)
   Lemma fuellen_loop_inv (suf pre : list A) x :
@@ -335,8 +331,3 @@ Qed.
 Lemma elw_verketten_spec l1 l2 : length l1 = length l2 -> Elementweise_Verketten_Text l1 l2 = Ok (zip_app l1 l2).
 Proof. intros H. apply (elw_verketten_loop_inv l1 l2 [] [] [] H eq_refl eq_refl). Qed.
 
-(* ---- refutations: the documentation promises a Laufzeitfehler for an invalid index ------------- *)
-Lemma loesche_element_refuted : exists (l : list Z) i, ~ (1 <= i <= len l) /\ Loesche_Element l i <> Err.
-Proof. exists [7; 8], 0. split; [cbn; lia|]. vm_compute. discriminate. Qed.
-Lemma loesche_bereich_refuted : exists (l : list Z) s e, ~ (1 <= s /\ s <= e /\ e <= len l) /\ Loesche_Bereich l s e <> Err.
-Proof. exists [7; 8], 2, 5. split; [cbn; lia|]. vm_compute. discriminate. Qed.
